@@ -122,6 +122,24 @@ def run_in_context(cur, ctx: str, x: str, uid: str) -> str:
         return obs_exc(e)
 
 
+ORDERS = [(1, 10, "AU-001"), (2, 11, "NZ-002"), (3, 10, "XX-003"), (4, 12, "AU-004")]
+CUSTOMERS = {10: "alice", 11: "bob"}
+REGIONS = {"AU": "Australia", "NZ": "New Zealand"}
+NUMS = [(1, "a"), (2, "a"), (3, "b"), (4, "b"), (5, "b"), (6, "c"), (7, "c"), (8, "c"), (9, "c"), (10, "d"), (None, "d"), (None, "e")]
+SETUP = [
+    "create table orders (id int, cust_id int, code varchar)",
+    "insert into orders values " + ", ".join(f"({i}, {c}, '{code}')" for i, c, code in ORDERS),
+    "create table customers (cust_id int, name varchar)",
+    "insert into customers values " + ", ".join(f"({k}, '{v}')" for k, v in CUSTOMERS.items()),
+    "create table regions (prefix varchar, region varchar)",
+    "insert into regions values " + ", ".join(f"('{k}', '{v}')" for k, v in REGIONS.items()),
+    "create table one (k int)",
+    "insert into one values (1)",
+    "create table nums (n int, g varchar)",
+    "insert into nums values " + ", ".join(f"({'null' if n is None else n}, '{g}')" for n, g in NUMS),
+]
+
+
 def _worker(shard):
     import fakesnow
     import snowflake.connector
@@ -130,11 +148,21 @@ def _worker(shard):
         conn = snowflake.connector.connect(database="db1", schema="s1")
         cur = conn.cursor()
         cur.execute("create table dd (d date, ts timestamp)")
+        for ddl in SETUP:
+            cur.execute(ddl)
         for i, (kind, payload) in enumerate(shard):
             uid = f"{i}"
             if kind == "expr":
                 x, ctxs = payload
                 out.append({c: run_in_context(cur, c, x, uid) for c in ctxs})
+            elif kind == "query":
+                try:
+                    for stmt in payload[:-1]:
+                        cur.execute(stmt.replace("{uid}", uid))
+                    cur.execute(payload[-1].replace("{uid}", uid))
+                    out.append({"query": "|".join(",".join(obs_cell(v) for v in r) for r in cur.fetchall())})
+                except Exception as e:
+                    out.append({"query": obs_exc(e)})
             elif kind == "datecol":
                 # a DATE column operand: not syntactically a cast
                 d, x = payload
@@ -279,9 +307,21 @@ def build(chk):
                 rx.append((subj, pat, ngroups, rnd.choice([1, 2]), rnd.choice([1, 2]), "".join(params), group))
     rnd.shuffle(rx)
     rx = rx[: (400 if quick else 3000)]
-    rx += [("abc abd abe", "ab.", 0, 5, 1, None, None), ("abc abd abe", "a(b)(.)", 2, 1, 2, "e", None), ("abc abd abe", "a(b)(.)", 2, 1, 2, "e", 2)]
+    # 6 arguments: a given <group_num> extracts that group whatever the parameters say ('e' is implied)
+    rx6 = []
+    for subj in ("Hello hello", "abc abd abe", "AbC aBd", "a1b22c333"):
+        for pat, ngroups in (("(h)(ello)", 2), ("a(b)(.)", 2), ("(a)(b)?", 2), ("([a-c])(\\d+)", 2)):
+            for params in ("i", "c", "", "im", "e", "ie", "s"):
+                for group in range(0, ngroups + 1):
+                    rx6.append((subj, pat, ngroups, rnd.choice([1, 1, 2]), rnd.choice([1, 1, 2]), params, group))
+    rnd.shuffle(rx6)
+    rx += rx6[: (150 if quick else len(rx6))]
+    fixed_rx = [("abc abd abe", "ab.", 0, 5, 1, None, None), ("abc abd abe", "a(b)(.)", 2, 1, 2, "e", None), ("abc abd abe", "a(b)(.)", 2, 1, 2, "e", 2),
+                ("Hello hello", "(h)(ello)", 2, 1, 1, "i", 2), ("Hello hello", "(h)(ello)", 2, 1, 1, "c", 1), ("Hello hello", "(h)(ello)", 2, 1, 1, "", 0)]
+    rx += fixed_rx
+
     for ci, (subj, pat, ng, pos, occ, params, group) in enumerate(rx):
-        args = [sql_str(subj), sql_str(pat)] if ci >= len(rx) - 3 else [quote(rnd, subj), quote(rnd, pat)]
+        args = [sql_str(subj), sql_str(pat)] if ci >= len(rx) - len(fixed_rx) else [quote(rnd, subj), quote(rnd, pat)]
         # positional arguments: later ones force the earlier ones
         npos = 5 if group is not None else 4 if params is not None else 3 if occ is not None else 2 if pos is not None else 1
         vals = [pos if pos is not None else 1, occ if occ is not None else 1, params if params is not None else "c", group]
@@ -468,6 +508,85 @@ def build(chk):
         cases.append({"tag": "dollar-quoted", "task": ("expr", (x, CONTEXTS)), "line": None, "x": x, "judge": ("fixed", want, None, None)})
     cases.append({"tag": "regexp_replace:backslash", "task": ("expr", ("regexp_replace($$a\\b$$, $$\\\\$$, '/')", ["select", "where"])), "line": None,
                   "x": "regexp_replace($$a\\b$$, $$\\\\$$, '/')", "judge": ("fixed", "Sa/b", "Sa\\b", "C10/regexp-pattern-backslash-unescaped-twice")})
+    # ---- alias reuse in JOIN … ON ----------------------------------------------------------------------
+    A = ("left join regions r on pfx = r.prefix", "a1")
+    others = [("join customers c on o.cust_id = c.cust_id", "a2", True), ("join customers c on o.cust_id = c.cust_id and c.name is not null", "o", True),
+              ("join customers c on (o.cust_id = c.cust_id)", "o", True), ("join customers c using (cust_id)", "n", True), ("cross join one x", "n", False),
+              ("join one x on x.k = 1 and 1 = 1", "o", False), ("left join one y on (y.k = 1)", "o", False)]
+    jlists = [[A]]
+    for o1 in others:
+        jlists += [[A, o1], [o1, A]]
+        for o2 in others:
+            if o1 is not o2 and not (o1[2] and o2[2]) and o1[0].split(" on ")[0].split()[-1] != o2[0].split(" on ")[0].split()[-1]:
+                jlists += [[A, o1, o2], [o1, A, o2], [o1, o2, A]]
+    rnd.shuffle(jlists)
+    jlists = [[A]] + [[others[4], A], [others[1], A], [others[2], A], [others[3], A]] + jlists[: (24 if quick else len(jlists))]
+    for jl in jlists:
+        has_c = any(len(j) == 3 and j[2] for j in jl)
+        proj = "o.id, substr(o.code, 1, 2) as pfx, r.region" + (", c.name" if has_c else "")
+        body = f"select {proj} from orders o " + " ".join(j[0] for j in jl)
+        want_rows = []
+        for oid, cust, code in ORDERS:
+            if has_c and cust not in CUSTOMERS:
+                continue
+            pfx = code[:2]
+            row = [f"I{oid}", "S" + pfx, "S" + REGIONS[pfx] if pfx in REGIONS else "N"] + (["S" + CUSTOMERS[cust]] if has_c else [])
+            want_rows.append(",".join(row))
+        want = "|".join(want_rows)
+        line = "rewrite\taliasjoin\t1\t" + enc_list([j[1] for j in jl])
+        pos = [j[1] for j in jl].index("a1")
+        for form, stmts in (("select", [body + " order by o.id"]), ("cte", [f"with q as ({body}) select * from q order by 1"]),
+                            ("view", [f"create or replace view aj_{{uid}} as {body}", "select * from aj_{uid} order by 1"])):
+            if form != "select" and quick and rnd.random() < 0.6:
+                continue
+            cases.append({"tag": f"alias_in_join:{len(jl)}joins:pos{pos}", "x": stmts[0] if form != "view" else "create view … as " + body, "task": ("query", stmts),
+                          "line": line, "judge": ("aliasjoin", want, pos)})
+
+    # ---- SAMPLE … SEED, IDENTIFIER(), ARRAY_AGG [WITHIN GROUP], DATEDIFF relations ---------------------------
+    allnums = "|".join(f"I{n}" for n, _ in NUMS if n is not None)
+    for sd in [0, 1, 42, 7] + [rnd.randint(0, 10**6) for _ in range(2 if quick else 20)]:
+        for pct in (50, 30):
+            q = f"select n from nums sample ({pct}) seed ({sd}) where n is not null order by n"
+            cases.append({"tag": "sample", "x": q, "task": ("stmts", [q, q, q.replace("sample", "tablesample bernoulli")]), "line": None, "judge": ("sample", allnums)})
+    for q, want in [("select count(*) from nums sample (100) seed (3)", f"I{len(NUMS)}"), ("select count(*) from nums sample (0) seed (3)", "I0"),
+                    ("select count(*) from nums tablesample (100) seed (9)", f"I{len(NUMS)}")]:
+        cases.append({"tag": "sample", "x": q, "task": ("query", [q]), "line": None, "judge": ("query_fixed", want)})
+    for q, want in [("select count(*) from identifier('nums')", f"I{len(NUMS)}"), ("select count(*) from identifier('db1.s1.nums')", f"I{len(NUMS)}"),
+                    ("select count(*) from identifier('NUMS') where identifier('n') = 3", "I1"), ("select identifier('g') from nums where identifier('n') = 10", "Sd"),
+                    ("select max(identifier('n')) from identifier('s1.nums')", "I10"),
+                    ("with c as (select identifier('n') as m from identifier('nums')) select count(m) from c", "I10")]:
+        cases.append({"tag": "identifier", "x": q, "task": ("query", [q]), "line": None, "judge": ("query_fixed", want)})
+    nn = [n for n, _ in NUMS if n is not None]
+    js = lambda xs: "S" + json.dumps(xs, separators=(",", ":"))  # noqa: E731
+    groups = sorted({g for _, g in NUMS})
+    agg = [("select array_agg(n) within group (order by n) from nums", js(sorted(nn))), ("select array_agg(n) within group (order by n desc) from nums", js(sorted(nn, reverse=True))),
+           ("select array_agg(g) within group (order by g desc, n) from nums where n is not null", js([g for n, g in sorted([x for x in NUMS if x[0] is not None], key=lambda x: (-ord(x[1]), x[0]))])),
+           ("select array_agg(n) within group (order by n) from nums where n > 3 and n < 7", js([4, 5, 6])),
+           ("select array_size(array_agg(n)) from nums", f"I{len(nn)}"),
+           ("select g, array_agg(n) within group (order by n desc) from nums where n is not null group by g order by g",
+            "|".join(f"S{g}," + js(sorted([n for n, h in NUMS if h == g and n is not None], reverse=True)) for g in groups if any(h == g and n is not None for n, h in NUMS))),
+           ("select array_agg(n) within group (order by n) from nums where g = 'd'", js([10])),
+           ("create or replace view agv_{uid} as select array_agg(n) within group (order by n desc) as a from nums;select a from agv_{uid}", js(sorted(nn, reverse=True)))]
+    KEY_WG = "C10/array-agg-within-group-keeps-nulls"
+    nulls = [None] * sum(1 for n, _ in NUMS if n is None)
+    with_nulls = {agg[0][0]: js(sorted(nn) + nulls), agg[1][0]: js(nulls + sorted(nn, reverse=True)), agg[6][0]: js([10, None]), agg[7][0]: js(nulls + sorted(nn, reverse=True))}
+    for q, want in agg:
+        if q in with_nulls:
+            cases.append({"tag": "array_agg", "x": q, "task": ("query", q.split(";")), "line": None, "judge": ("query_finding", want, with_nulls[q], KEY_WG)})
+        else:
+            cases.append({"tag": "array_agg", "x": q, "task": ("query", q.split(";")), "line": None, "judge": ("query_fixed", want)})
+    cases.append({"tag": "array_agg:set", "x": "select array_agg(n) from nums", "task": ("query", ["select array_agg(n) from nums"]), "line": None, "judge": ("json_multiset", nn)})
+    cases.append({"tag": "array_agg:empty", "x": "select array_agg(n) from nums where n > 100", "task": ("query", ["select array_agg(n) from nums where n > 100"]), "line": None,
+                  "judge": ("query_finding", "S[]", "N", "C10/array-agg-empty-null")})
+    trip = ["2022-12-31", "2023-01-01", "2023-01-31", "2023-02-01", "2023-03-31", "2023-04-01", "2024-02-29", "2025-01-01", "1969-12-31", "1970-01-01"]
+    for _ in range(12 if quick else 120):
+        a, b, c = (rnd.choice(trip) for _ in range(3))
+        for unit in ("year", "quarter", "month"):
+            q = (f"select datediff({unit}, '{a}'::date, '{c}'::date), datediff({unit}, '{a}'::date, '{b}'::date) + datediff({unit}, '{b}'::date, '{c}'::date), "
+                 f"datediff({unit}, '{a}'::date, '{b}'::date), -datediff({unit}, '{b}'::date, '{a}'::date), datediff({unit}, '{a}'::date, '{a}'::date)")
+            dac, dab = datediff_doc(unit, dt.date.fromisoformat(a), dt.date.fromisoformat(c)), datediff_doc(unit, dt.date.fromisoformat(a), dt.date.fromisoformat(b))
+            cases.append({"tag": "datediff:relations", "x": q, "task": ("query", [q]), "line": None, "judge": ("query_fixed", f"I{dac},I{dac},I{dab},I{dab},I0")})
+
     for x, want in [("to_date('2023-01-05')", "d2023-01-05"), ("to_date('2024-02-29')", "d2024-02-29"), ("to_timestamp('2023-01-05 10:00:00')", "t2023-01-05 10:00:00"),
                     ("to_timestamp_ntz('2023-01-05')", "t2023-01-05 00:00:00"), ("to_date(null)", "N")]:
         cases.append({"tag": "to_date/to_timestamp", "task": ("expr", (x, ctx_pick(rnd, quick, k=1))), "line": None, "x": x, "judge": ("fixed", want, None, None)})
@@ -589,6 +708,39 @@ def judge(chk, case, real, rep):
                               f"(model of the code predicts {impl}; finding region: {key or '-'})", c,
                               broken=f"C10 correspondence ({tag.split(':')[0]}); C10_context for context {ctx}")
         return
+    if k in ("aliasjoin", "query_fixed", "json_multiset", "query_finding"):
+        got = real["query"]
+        c = dict(cinfo, observed=got)
+        chk.case((case["x"],), nontrivial=True)
+        chk.count(tag)
+        if k == "aliasjoin":
+            _, want, pos = case["judge"]
+            flags = dec_list(rep["impl"])
+            if flags[pos] != "1" or flags.count("1") != 1:
+                chk.violation(f"model: aliasInJoin flags {flags} for {case['line']}", c, broken="C10_alias_in_join", failing_input=False)
+            if got != want:
+                chk.violation(f"`{case['x']}` returned {got!r}; with the select alias `pfx` substituted in the ON clause the rows are {want!r}", c,
+                              broken="C10_alias_in_join (correspondence: the join at position %d must be rewritten whatever the other joins are)" % pos)
+        elif k == "query_fixed":
+            if got != case["judge"][1]:
+                chk.violation(f"`{case['x']}` returned {got!r}, documented {case['judge'][1]!r}", c, broken=f"C10 correspondence ({tag})")
+        elif k == "json_multiset":
+            ok = got.startswith("S")
+            try:
+                ok = ok and sorted(json.loads(got[1:])) == sorted(case["judge"][1])
+            except (ValueError, TypeError):
+                ok = False
+            if not ok:
+                chk.violation(f"`{case['x']}` returned {got!r}, documented an ARRAY of the non-NULL values {case['judge'][1]}", c, broken="C10_array_agg_partial (correspondence)")
+        else:
+            _, spec, impl, key = case["judge"]
+            if got == spec:
+                return
+            if got == impl:
+                chk.finding(key, f"`{case['x']}`: got {got}, documented {spec}", c)
+            else:
+                chk.violation(f"`{case['x']}`: got {got}, documented {spec}", c, broken=f"C10 correspondence ({tag})")
+        return
     res = real["stmts"]
     c = dict(cinfo, observed=res)
     chk.case((case["x"],), nontrivial=True)
@@ -609,6 +761,15 @@ def judge(chk, case, real, rep):
         rows = res[0].split("|")
         if rows[0] != want:
             chk.violation(f"`{sql}` returned {res[0]!r}, documented: columns are named COLUMN1..COLUMN{n} → {want}", c, broken="C10_values_names (correspondence)")
+    elif k == "sample":
+        a, b, alt = res
+        allrows = case["judge"][1].split("|")
+        rows = a.split("|") if a else []
+        if a != b or a != alt:
+            chk.violation(f"`{case['x']}` run twice (and spelled TABLESAMPLE BERNOULLI) returned {a!r}, {b!r}, {alt!r}: SEED makes the sample deterministic", c,
+                          broken="SAMPLE … SEED determinism (oracle)")
+        elif any(r not in allrows for r in rows) or len(set(rows)) != len(rows):
+            chk.violation(f"`{case['x']}` returned {a!r}: not a sub-multiset of the table", c, broken="SAMPLE … SEED (oracle)")
     elif k == "random_seeded":
         s = case["judge"][1]
         a, b, other = res
